@@ -131,9 +131,22 @@ pub fn case(ctx: &Ctx, kind: &str, params: &Value, counting: bool) -> Result<(),
 
 /// ids obtained from a generated >= 2.2 replay read by peppi
 fn game_case(ctx: &Ctx, dna: &[u8], counting: bool) -> Result<(), Fail> {
-	let m = model_from_dna(dna, &cfg_for(ctx));
+	let mut m = model_from_dna(dna, &cfg_for(ctx));
 	if !spec::gte(m.v(), (2, 2)) {
 		return Ok(());
+	}
+	// an offline / already finalised recording: every Frame End names its own frame as the latest finalised
+	// one (>= 3.7), although the id sequence may still contain repeats; and the lagging variant (id - k)
+	let sel = dna.first().copied().unwrap_or(0) % 4;
+	if sel <= 1 && spec::gte(m.v(), (3, 7)) {
+		for f in m.frames.iter_mut() {
+			let id = f.id;
+			if let Some(e) = f.end.as_mut() {
+				if e.len() >= 4 {
+					e[..4].copy_from_slice(&(id - sel as i32 * 2).to_be_bytes());
+				}
+			}
+		}
 	}
 	let bytes = m.encode();
 	let g = rt::slp_read_default(&bytes).expect_ok("slippi::read")?;
@@ -151,6 +164,9 @@ fn game_case(ctx: &Ctx, dna: &[u8], counting: bool) -> Result<(), Fail> {
 	if counting {
 		ctx.eval();
 		ctx.class("from_replay");
+		if sel == 0 && spec::gte(m.v(), (3, 7)) {
+			ctx.class("from_replay_latest_finalized_equals_id");
+		}
 		if m.frames.windows(2).any(|w| w[1].id <= w[0].id) {
 			ctx.class("from_replay_with_rollback");
 			ctx.nontrivial(rt::hash_bytes(&bytes));
